@@ -428,13 +428,23 @@ func (r *Reader) Resolve(obj core.Object) (core.Object, error) {
 // ResolveDeep recursively resolves all indirect references in an object
 // Implements pages.ObjectResolver interface
 func (r *Reader) ResolveDeep(obj core.Object) (core.Object, error) {
-	return r.resolveDeep(obj, make(map[int]bool))
+	budget := maxResolveDeepValues
+	return r.resolveDeep(obj, make(map[int]bool), &budget)
 }
+
+// maxResolveDeepValues bounds the values one ResolveDeep call expands. Objects
+// that are referenced from several places are expanded at each of them, so a
+// small file can describe a tree of any size
+const maxResolveDeepValues = 1 << 20
 
 // resolveDeep expands obj. onPath holds the numbers of the objects being
 // expanded: a reference back to one of them (a page's /Parent, for instance)
 // is an error instead of being followed for ever
-func (r *Reader) resolveDeep(obj core.Object, onPath map[int]bool) (core.Object, error) {
+func (r *Reader) resolveDeep(obj core.Object, onPath map[int]bool, budget *int) (core.Object, error) {
+	*budget--
+	if *budget < 0 {
+		return nil, fmt.Errorf("object expands to more than %d values", maxResolveDeepValues)
+	}
 	if ref, ok := obj.(core.IndirectRef); ok {
 		if onPath[ref.Number] {
 			return nil, fmt.Errorf("circular reference detected for object %d", ref.Number)
@@ -454,7 +464,7 @@ func (r *Reader) resolveDeep(obj core.Object, onPath map[int]bool) (core.Object,
 	case core.Array:
 		result := make(core.Array, len(v))
 		for i, elem := range v {
-			resolvedElem, err := r.resolveDeep(elem, onPath)
+			resolvedElem, err := r.resolveDeep(elem, onPath, budget)
 			if err != nil {
 				return nil, err
 			}
@@ -465,7 +475,7 @@ func (r *Reader) resolveDeep(obj core.Object, onPath map[int]bool) (core.Object,
 	case core.Dict:
 		result := make(core.Dict)
 		for key, val := range v {
-			resolvedVal, err := r.resolveDeep(val, onPath)
+			resolvedVal, err := r.resolveDeep(val, onPath, budget)
 			if err != nil {
 				return nil, err
 			}
